@@ -423,6 +423,9 @@ func lifeMain(args []string) error {
 			scns = append(scns, lifeScn{K: k + 2, Answers: true, Chan: 1, Ops: []lifeOp{{Op: "until", Ctx: "c1"}, {Op: "peer", N: 2, Kind: "row"}, {Op: "cancel", Ctx: "c1"}}})
 			scns = append(scns, lifeScn{K: k + 2, Answers: true, Ops: []lifeOp{{Op: "peer", N: 1, Kind: "row"}, {Op: "until", Ctx: "c1"}, {Op: "peer", N: 1}}})
 			scns = append(scns, lifeScn{K: k + 2, Answers: true, Ops: []lifeOp{{Op: "peer", N: 1, Kind: "row"}, {Op: "until"}, {Op: "cancel", Ctx: "conn"}}})
+			// every channel closed before the connection is closed; no channel ever used
+			scns = append(scns, lifeScn{K: k, Answers: true, Ops: []lifeOp{{Op: "close"}, {Op: "connclose"}, {Op: "next"}}})
+			scns = append(scns, lifeScn{K: k, Answers: true, Chan: 1, Ops: []lifeOp{{Op: "close"}, {Op: "connclose"}}})
 			// sends with cancelled contexts
 			scns = append(scns, lifeScn{K: k, Answers: true, Ops: []lifeOp{{Op: "send", Ctx: "cancelled"}, {Op: "send"}, {Op: "send", Ctx: "cancelled"}}})
 		}
